@@ -18,6 +18,16 @@ import (
 // VerifDir is the root of the verification tree (set by main).
 var VerifDir = "/verif"
 
+// OutDir, when set, receives evidence/ and replays/ instead of VerifDir (development aid).
+var OutDir = ""
+
+func outDir() string {
+	if OutDir != "" {
+		return OutDir
+	}
+	return VerifDir
+}
+
 // Case is a replayable artefact: everything needed to re-run one explored
 // case without the explorer.
 type Case struct {
@@ -300,9 +310,9 @@ func (r *Report) Finish() int {
 	if r.Assumptions == nil {
 		ev["assumptions"] = []string{}
 	}
-	os.MkdirAll(filepath.Join(VerifDir, "evidence"), 0o755)
+	os.MkdirAll(filepath.Join(outDir(), "evidence"), 0o755)
 	b, _ := json.MarshalIndent(ev, "", " ")
-	evPath := filepath.Join(VerifDir, "evidence", r.Prop+".json")
+	evPath := filepath.Join(outDir(), "evidence", r.Prop+".json")
 	if err := os.WriteFile(evPath, append(b, '\n'), 0o644); err != nil {
 		fmt.Fprintln(os.Stderr, "cannot write evidence:", err)
 		return 2
@@ -329,11 +339,11 @@ func (r *Report) Finish() int {
 	if len(newViol) == 0 && newCount == 0 {
 		return 0
 	}
-	os.MkdirAll(filepath.Join(VerifDir, "replays"), 0o755)
+	os.MkdirAll(filepath.Join(outDir(), "replays"), 0o755)
 	for _, c := range newViol {
 		jb, _ := json.MarshalIndent(c, "", " ")
 		h := sha256.Sum256(jb)
-		p := filepath.Join(VerifDir, "replays", fmt.Sprintf("%s-%s.json", r.Prop, hex.EncodeToString(h[:6])))
+		p := filepath.Join(outDir(), "replays", fmt.Sprintf("%s-%s.json", r.Prop, hex.EncodeToString(h[:6])))
 		os.WriteFile(p, append(jb, '\n'), 0o644)
 		fmt.Printf("VIOLATION property=%s replay=%s\n", r.Prop, p)
 		fmt.Printf("  key=%s occurrences=%d\n  expected: %s\n  observed: %s\n", c.Key, keys[c.Key], trunc(c.Expected, 400), trunc(c.Observed, 400))
